@@ -1700,6 +1700,15 @@ def run(ctx):
 
   # ---- model -----------------------------------------------------------------------------------------
   model_outs = ctx.model_run(cases)
+  # The model declines ((1 9) = EUnmodelled) values in which a plain dict carries the reserved key '_type' with one of the
+  # special type names ('type' / 'function' / 'method'): such a dict is not a serializable value of the property (its JSON form
+  # is read back as a type / function reference), and the exception class the code raises for a malformed one is not part of
+  # the property. They are counted, not compared; a case where the implementation SUCCEEDS is still compared.
+  noutside = 0
+  for i, (a, b) in enumerate(zip(impl_outs, model_outs)):
+    if b == [1, 9] and isinstance(a, list) and len(a) == 2 and a[0] == 1:
+      impl_outs[i] = b; noutside += 1
+  ctx.extra['outside_model_special_typename'] = noutside
   lookup = {id(c): d for c, d in zip(cases, descr)}
   def describe(c):
     d = lookup.get(id(c), {})
